@@ -6,7 +6,8 @@ use serde_json::Value;
 
 use super::common::*;
 use crate::{
-    corpus::{new_log, A},
+    corpus::{canon_val, gen_val, new_log, A},
+    corpus_gen,
     framework::{Scenario, Tier, Verdict},
     kernel::{SchedCfg, World},
     models::{linearizable, HistOp, SeqModel},
@@ -41,6 +42,79 @@ struct P {
     pipelined: bool,
     link_in: LinkCfg,
     link_out: LinkCfg,
+    /// `Some(k)`: the target is generated interface `k` (property indices and value seeds refer to
+    /// `corpus_gen::PROPS`); `None`: the hand-written interface A
+    #[serde(default)]
+    target: Option<usize>,
+}
+
+/// Properties of generated interface `k`: (name, signature, emits-changed mode, access).
+fn gen_props(k: usize) -> Vec<(&'static str, &'static str, &'static str, &'static str)> {
+    corpus_gen::PROPS.iter().filter(|t| t.0 == k).map(|t| (t.1, t.2, t.3, t.4)).collect()
+}
+fn gen_value(sig: &str, seed: u32) -> Val {
+    gen_val(&mut Rng::new(seed as u64 ^ 0x9e37_79b9), sig)
+}
+/// A value whose type differs from `sig`.
+fn wrong_typed(sig: &str) -> Val {
+    if sig == "(bd)" {
+        Val::U32(1)
+    } else {
+        Val::Struct(vec![Val::Bool(true), Val::F64(1.5)])
+    }
+}
+
+/// Table-driven model for a generated interface: canonical rendering of each property's value.
+#[derive(Clone)]
+struct GModel {
+    k: usize,
+    vals: Vec<String>,
+}
+#[derive(Clone, Debug, PartialEq)]
+enum GRet {
+    Value(String),
+    All(BTreeMap<String, String>),
+    Done,
+    Error,
+}
+impl SeqModel for GModel {
+    type Op = Op;
+    type Ret = GRet;
+    fn apply(&mut self, op: &Op, r: &GRet) -> bool {
+        let props = gen_props(self.k);
+        let is_err = *r == GRet::Error;
+        match op {
+            Op::Get(p) => match props.get(*p as usize) {
+                Some((_, _, _, access)) if *access != "write" => *r == GRet::Value(self.vals[*p as usize].clone()),
+                _ => is_err,
+            },
+            Op::GetAll => {
+                let m: BTreeMap<String, String> = props.iter().enumerate().filter(|(_, t)| t.3 != "write").map(|(i, t)| (t.0.to_string(), self.vals[i].clone())).collect();
+                *r == GRet::All(m)
+            }
+            Op::Set(p, seed) => match props.get(*p as usize) {
+                Some((_, sig, _, access)) if *access != "read" => {
+                    if *r == GRet::Done {
+                        self.vals[*p as usize] = canon_val(&gen_value(sig, *seed));
+                        true
+                    } else {
+                        false
+                    }
+                }
+                _ => is_err,
+            },
+            Op::SetWrongType(_) | Op::GetUnknownIface => is_err,
+        }
+    }
+    fn apply_blind(&mut self, _op: &Op) {}
+    fn key(&self) -> u64 {
+        let mut h = crate::rng::Fnv::default();
+        for v in &self.vals {
+            h.write(v.as_bytes());
+            h.write_u64(0);
+        }
+        h.0
+    }
 }
 
 fn typed(prop: u8, v: u32) -> Val {
@@ -162,6 +236,27 @@ impl Scenario for C28Scn {
     }
 
     fn generate(&self, rng: &mut Rng, _idx: u64, _tier: Tier) -> (SchedCfg, Value) {
+        if rng.chance(1, 2) {
+            let with_props: Vec<usize> = (0..corpus_gen::N_IFACES).filter(|k| corpus_gen::n_props(*k) > 0).collect();
+            let k = *rng.pick(&with_props);
+            let np = corpus_gen::n_props(k) as u64;
+            let writable: Vec<u8> = gen_props(k).iter().enumerate().filter(|(_, t)| t.3 != "read").map(|(i, _)| i as u8).collect();
+            // a property declared `v` accepts every type by definition of its Rust type
+            let strict: Vec<u8> = gen_props(k).iter().enumerate().filter(|(_, t)| t.1 != "v").map(|(i, _)| i as u8).collect();
+            let n = rng.range(1, 10);
+            let ops = (0..n)
+                .map(|_| match rng.below(12) {
+                    0..=2 => Op::Get(rng.below(np + 1) as u8),
+                    3 => Op::GetAll,
+                    // prefer writable properties, but also try read-only and unknown ones
+                    4..=8 => Op::Set(if !writable.is_empty() && rng.chance(2, 3) { *rng.pick(&writable) } else { rng.below(np + 1) as u8 }, rng.below(1 << 20) as u32),
+                    9..=10 if !strict.is_empty() => Op::SetWrongType(*rng.pick(&strict)),
+                    _ => Op::GetUnknownIface,
+                })
+                .collect();
+            let sched = SchedCfg::generate(rng, &["method dispatcher", "obj_server_task", "socket reader"]);
+            return (sched, j(&P { ops, pipelined: rng.chance(1, 2), link_in: gen_read_cfg(rng), link_out: gen_write_cfg(rng), target: Some(k) }));
+        }
         let n = rng.range(1, 10);
         let ops = (0..n)
             .map(|_| match rng.below(12) {
@@ -173,7 +268,7 @@ impl Scenario for C28Scn {
             })
             .collect();
         let sched = SchedCfg::generate(rng, &["method dispatcher", "obj_server_task", "socket reader"]);
-        (sched, j(&P { ops, pipelined: rng.chance(1, 2), link_in: gen_read_cfg(rng), link_out: gen_write_cfg(rng) }))
+        (sched, j(&P { ops, pipelined: rng.chance(1, 2), link_in: gen_read_cfg(rng), link_out: gen_write_cfg(rng), target: None }))
     }
 
     fn shrink(&self, body: &Value) -> Vec<Value> {
@@ -204,6 +299,7 @@ impl Scenario for C28Scn {
         let (l2, u2, ww) = (log.clone(), up.clone(), w.clone());
         let server = w.spawn("server", async move {
             let b = zbus::connection::Builder::authenticated_socket(sock, GUID).unwrap().p2p().internal_executor(false).serve_at("/a", A::new(&l2, &ww, 0)).unwrap();
+            let b = corpus_gen::serve_all(b, &l2, &ww).unwrap();
             if let Ok(c) = b.build().await {
                 *u2.lock().unwrap() = true;
                 std::future::pending::<()>().await;
@@ -219,6 +315,19 @@ impl Scenario for C28Scn {
             let mut r = PeerReader::new(raw2.clone());
             let build = |i: usize, op: &Op| -> RawMsg {
                 let serial = 100 + i as u32;
+                if let Some(k) = p2.target {
+                    let props = gen_props(k);
+                    let (path, iface) = (format!("/g{k}"), format!("org.gen.I{k}"));
+                    let name = |pr: &u8| props.get(*pr as usize).map(|t| t.0).unwrap_or("NoSuch");
+                    let sig = |pr: &u8| props.get(*pr as usize).map(|t| t.1).unwrap_or("u");
+                    return match op {
+                        Op::Get(pr) => RawMsg::call(serial, &path, Some(PROPS_IFACE), "Get").body(&[Val::str(&iface), Val::str(name(pr))]),
+                        Op::GetAll => RawMsg::call(serial, &path, Some(PROPS_IFACE), "GetAll").body(&[Val::str(&iface)]),
+                        Op::Set(pr, v) => RawMsg::call(serial, &path, Some(PROPS_IFACE), "Set").body(&[Val::str(&iface), Val::str(name(pr)), Val::Variant(Box::new(gen_value(sig(pr), *v)))]),
+                        Op::SetWrongType(pr) => RawMsg::call(serial, &path, Some(PROPS_IFACE), "Set").body(&[Val::str(&iface), Val::str(name(pr)), Val::Variant(Box::new(wrong_typed(sig(pr))))]),
+                        Op::GetUnknownIface => RawMsg::call(serial, &path, Some(PROPS_IFACE), "Get").body(&[Val::str("org.gen.Nope"), Val::str(name(&0))]),
+                    };
+                }
                 match op {
                     Op::Get(pr) => RawMsg::call(serial, "/a", Some(PROPS_IFACE), "Get").body(&[Val::str("org.sim.A"), Val::str(PROPS[*pr as usize])]),
                     Op::GetAll => RawMsg::call(serial, "/a", Some(PROPS_IFACE), "GetAll").body(&[Val::str("org.sim.A")]),
@@ -284,6 +393,9 @@ impl Scenario for C28Scn {
             return Verdict::harness("server did not come up");
         }
 
+        if let Some(k) = p.target {
+            return judge_generated(w, &p, k, &hist_v, &sigs);
+        }
         // ---- decode replies ----
         let mut ops: Vec<HistOp<Op, Ret>> = vec![];
         for (i, (inv, ret, reply)) in hist_v.iter().enumerate() {
@@ -402,4 +514,167 @@ impl Scenario for C28Scn {
         }
         Verdict::ok(ok_emit && rejected)
     }
+}
+
+/// Oracle for a generated interface: same rules as for the hand-written one, driven by `corpus_gen::PROPS`.
+fn judge_generated(w: &World, p: &P, k: usize, hist_v: &[(u64, u64, Option<RawMsg>)], sigs: &[RawMsg]) -> Verdict {
+    let props = gen_props(k);
+    let iface_name = format!("org.gen.I{k}");
+    let mut ops: Vec<HistOp<Op, GRet>> = vec![];
+    // A property declared `v` whose value arrives as the inner value directly (not as a variant holding a
+    // variant): recorded, the value is judged as if it had been wrapped, and reported last so that
+    // everything else is still judged on these runs.
+    let mut flattened: Option<String> = None;
+    let mut typed_canon = |t: &(&str, &str, &str, &str), v: &Val, at: &str| -> Result<String, Verdict> {
+        if v.sig() == t.1 {
+            Ok(canon_val(v))
+        } else if t.1 == "v" {
+            flattened.get_or_insert_with(|| format!("I{k}.{} is declared with type \"v\" but {at} carries a value of type {:?} directly instead of a variant holding it", t.0, v.sig()));
+            Ok(format!("<{}>", canon_val(v)))
+        } else {
+            Err(Verdict::fail("reply", format!("{at}-type-declared-{}", t.1), format!("I{k}: {at} carries {} with type {:?}, the property is declared {:?}", t.0, v.sig(), t.1)))
+        }
+    };
+    for (i, (inv, ret, reply)) in hist_v.iter().enumerate() {
+        let op = p.ops[i].clone();
+        let Some(m) = reply else {
+            return Verdict::fail("hang", "call-unanswered", format!("I{k}: call {i} {op:?} was never answered"));
+        };
+        let r = if m.mtype == T_ERROR {
+            GRet::Error
+        } else if m.mtype == T_RETURN {
+            let vals = match m.body_vals() {
+                Ok(v) => v,
+                Err(e) => return Verdict::fail("reply", "undecodable-reply", format!("I{k}: call {i} {op:?}: {e}")),
+            };
+            match (&op, vals.as_slice()) {
+                // the variant must hold a value of the declared type
+                (Op::Get(pr), [Val::Variant(v)]) => match props.get(*pr as usize) {
+                    Some(t) => match typed_canon(t, v, "Get") {
+                        Ok(c) => GRet::Value(c),
+                        Err(e) => return e,
+                    },
+                    None => GRet::Value(canon_val(v)),
+                },
+                (Op::GetUnknownIface, [Val::Variant(v)]) => GRet::Value(canon_val(v)),
+                (Op::GetAll, [Val::Array(_, entries)]) => {
+                    let mut map = BTreeMap::new();
+                    for e in entries {
+                        if let Val::DictEntry(key, v) = e {
+                            let name = key.as_str().unwrap_or("").to_string();
+                            let c = match props.iter().find(|t| t.0 == name) {
+                                Some(t) => match typed_canon(t, v.unvariant(), "GetAll") {
+                                    Ok(c) => c,
+                                    Err(e) => return e,
+                                },
+                                None => canon_val(v.unvariant()),
+                            };
+                            map.insert(name, c);
+                        }
+                    }
+                    if map.len() != entries.len() {
+                        return Verdict::fail("reply", "getall-duplicate-keys", format!("I{k}: GetAll returned {entries:?}"));
+                    }
+                    GRet::All(map)
+                }
+                (Op::Set(..) | Op::SetWrongType(_), []) => GRet::Done,
+                (_, other) => return Verdict::fail("reply", "reply-shape", format!("I{k}: call {i} {op:?} returned {other:?}")),
+            }
+        } else {
+            return Verdict::fail("reply", "reply-type", format!("I{k}: call {i} {op:?}: reply of type {}", m.mtype));
+        };
+        ops.push(HistOp { invoke: *inv, ret: *ret, op, result: Some(r), who: "client".into() });
+    }
+    let init = GModel { k, vals: corpus_gen::initial_canon(k) };
+    if !linearizable(&init, &ops) {
+        let seq: Vec<String> = ops.iter().map(|o| format!("{:?} -> {:?}", o.op, o.result.as_ref().unwrap())).collect();
+        let readable = props.iter().filter(|t| t.3 != "write").count();
+        let kind = ops
+            .iter()
+            .find_map(|o| match (&o.op, o.result.as_ref().unwrap()) {
+                (Op::GetAll, GRet::All(m)) if m.len() != readable => Some("getall-wrong-set".to_string()),
+                (Op::SetWrongType(_), GRet::Done) => Some("wrong-type-accepted".to_string()),
+                (Op::Set(pr, _), GRet::Done) if props.get(*pr as usize).map_or(true, |t| t.3 == "read") => Some("read-only-or-unknown-set-accepted".to_string()),
+                (Op::Set(pr, _), GRet::Error) if props.get(*pr as usize).map_or(false, |t| t.3 != "read") => Some(format!("valid-set-rejected-{}", props[*pr as usize].1)),
+                (Op::Get(pr), GRet::Error) if props.get(*pr as usize).map_or(false, |t| t.3 != "write") => Some("readable-get-rejected".to_string()),
+                _ => None,
+            })
+            .unwrap_or("values-inconsistent".to_string());
+        return Verdict::fail("linearizability", format!("generated-{kind}"), format!("I{k} {props:?}: no linearization against the property model ({}): {seq:?}", if p.pipelined { "pipelined" } else { "sequential" }));
+    }
+    // ---- signals: per property, successful Sets of an emitting property vs. PropertiesChanged entries ----
+    let n = props.len();
+    let mut want_changed: Vec<Vec<String>> = vec![vec![]; n];
+    let mut want_inval = vec![0usize; n];
+    for o in &ops {
+        if let (Op::Set(pr, seed), Some(GRet::Done)) = (&o.op, &o.result) {
+            let t = props[*pr as usize];
+            match t.2 {
+                "true" => want_changed[*pr as usize].push(canon_val(&gen_value(t.1, *seed))),
+                "invalidates" => want_inval[*pr as usize] += 1,
+                _ => {}
+            }
+        }
+    }
+    let mut got_changed: Vec<Vec<String>> = vec![vec![]; n];
+    let mut got_inval = vec![0usize; n];
+    for s in sigs {
+        if s.interface() != Some(PROPS_IFACE) || s.member() != Some("PropertiesChanged") {
+            return Verdict::fail("signal", "foreign-signal", format!("I{k}: unexpected signal {s:?}"));
+        }
+        let vals = s.body_vals().unwrap_or_default();
+        let (iface, changed, inval) = match vals.as_slice() {
+            [Val::Str(i), Val::Array(_, c), Val::Array(_, iv)] => (i.clone(), c.clone(), iv.clone()),
+            other => return Verdict::fail("signal", "signal-shape", format!("I{k}: PropertiesChanged body {other:?}")),
+        };
+        if iface != iface_name {
+            return Verdict::fail("signal", "signal-interface", format!("PropertiesChanged for {iface}, expected {iface_name}"));
+        }
+        for c in &changed {
+            if let Val::DictEntry(key, v) = c {
+                match props.iter().position(|t| Some(t.0) == key.as_str()) {
+                    Some(i) if props[i].2 == "true" => match typed_canon(&props[i], v.unvariant(), "PropertiesChanged") {
+                        Ok(c) => got_changed[i].push(c),
+                        Err(e) => return e,
+                    },
+                    _ => return Verdict::fail("signal", "unexpected-changed-property", format!("I{k}: PropertiesChanged carries {key:?} = {v:?}")),
+                }
+            }
+        }
+        for i in &inval {
+            match props.iter().position(|t| Some(t.0) == i.as_str()) {
+                Some(i) if props[i].2 == "invalidates" || (props[i].2 == "true" && props[i].3 == "write") => got_inval[i] += 1,
+                _ => return Verdict::fail("signal", "unexpected-invalidated-property", format!("I{k}: PropertiesChanged invalidates {i:?}")),
+            }
+        }
+    }
+    for i in 0..n {
+        // a write-only property has no readable value to carry: whether and how its Set is signalled is not judged
+        if props[i].3 == "write" {
+            continue;
+        }
+        let (mut a, mut b) = (want_changed[i].clone(), got_changed[i].clone());
+        a.sort();
+        b.sort();
+        if a != b {
+            let disc = if b.len() > a.len() { "extra-changed-signal" } else if b.len() < a.len() { "missing-changed-signal" } else { "changed-signal-wrong-value" };
+            return Verdict::fail("signal", format!("generated-{disc}"), format!("I{k}.{}: successful sets {:?}, PropertiesChanged values {:?}", props[i].0, want_changed[i], got_changed[i]));
+        }
+        if !p.pipelined && got_changed[i] != want_changed[i] {
+            return Verdict::fail("signal", "generated-changed-signal-order", format!("I{k}.{}: sets {:?}, signals {:?}", props[i].0, want_changed[i], got_changed[i]));
+        }
+        if got_inval[i] != want_inval[i] {
+            return Verdict::fail("signal", if got_inval[i] > want_inval[i] { "generated-extra-invalidation-signal" } else { "generated-missing-invalidation-signal" }, format!("I{k}.{}: {} successful sets, {} invalidation signals", props[i].0, want_inval[i], got_inval[i]));
+        }
+    }
+    let ok_emit = want_changed.iter().any(|v| !v.is_empty()) || want_inval.iter().any(|c| *c > 0);
+    let rejected = ops.iter().any(|o| matches!(o.op, Op::Set(..) | Op::SetWrongType(_)) && matches!(o.result, Some(GRet::Error)));
+    w.count("probe.generated_interface_target");
+    if let Some(d) = flattened {
+        return Verdict::fail("reply", "variant-typed-property-flattened", d);
+    }
+    if ok_emit && rejected {
+        w.count("probe.generated_successful_emitting_set_and_rejected_set");
+    }
+    Verdict::ok(ok_emit || rejected)
 }
